@@ -147,6 +147,13 @@ fn generate(rng: &mut Rng, n: usize, tier: &str, out: &mut dyn Write) {
         vec![Value::String("b".into()), Value::String("a".into()), Value::String("b".into())],
         vec![Value::List(vec![Value::Int(1)]), Value::List(vec![Value::Float(1.0)]), Value::List(vec![Value::Int(1)])],
         vec![Value::Float(f64::INFINITY), Value::Float(f64::NEG_INFINITY)],
+        // temporal strings of one kind whose text order differs from their chronological order
+        ["-0001-06-01", "-0002-01-01", "-0001-01-01"].iter().map(|s| Value::String(s.to_string())).collect(),
+        ["-0044-03-15", "+12044-03-15", "2019-12-31", "9999-12-31", "-0043-03-15"].iter().map(|s| Value::String(s.to_string())).collect(),
+        ["2019-12-31T23:00+01:00", "2019-12-31T22:30Z", "2020-01-01T00:30+02:00", "-0044-03-15T10:00+01:00"].iter().map(|s| Value::String(s.to_string())).collect(),
+        ["12:00+02:00", "11:00+00:00", "12:00Z"].iter().map(|s| Value::String(s.to_string())).collect(),
+        ["-0044-03-15T10:00", "+12044-03-15T00:00:00", "2019-12-31T12:00"].iter().map(|s| Value::String(s.to_string())).collect(),
+        vec![Value::String("-0044-03-15".into()), Value::Null, Value::String("-0043-03-15".into()), Value::String("-0044-03-15".into())],
         // equal under `==` / Cypher `=` but different bit patterns: signed zeros, alone and nested
         vec![Value::Float(0.0), Value::Float(-0.0)],
         vec![Value::Float(-0.0), Value::Float(0.0), Value::Float(3.0)],
@@ -187,7 +194,13 @@ fn generate(rng: &mut Rng, n: usize, tier: &str, out: &mut dyn Write) {
                     }
                 }
                 3 => Value::Float(f64::from_bits(*rng.pick(FLOATS))),
-                4 => vtok::gen_scalar(rng),
+                4 => {
+                    if rng.chance(1, 2) {
+                        Value::String(rng.pick(&["-0044-03-15", "-0043-03-15", "-0001-06-01", "-0002-01-01", "+12044-03-15", "2019-12-31", "9999-12-31", "0001-01-01"]).to_string())
+                    } else {
+                        vtok::gen_scalar(rng)
+                    }
+                }
                 _ => vtok::gen_value(rng, 2),
             })
             .collect();
